@@ -34,7 +34,7 @@ def replay_file(mod, prop, path):
     ob = d["obligation"]
     sig = h.bad.get(ob) or h.witness.get(ob)
     hit = [t for t in range(len(rows)) if rows[t][sig] == 1]
-    show = h.show or sorted(tr.free, key=lambda s: s.duid)[:8]
+    show = [s for s in (h.show or sorted(tr.free, key=lambda s: s.duid)[:8]) if s in tr.allsigs]
     for t in range(len(rows)):
         print(t, sorted(sched[t]) if t < len(sched) else "", {tr.names[s]: rows[t][s] for s in show}, "<== violation" if t in hit else "")
     if hit:
